@@ -16,7 +16,8 @@
 (***************************************************************************)
 EXTENDS EFCorpus, Json
 
-CONSTANT Tier
+CONSTANT Tier,
+         Seed      \* >= 1: shifts which part of a sampled family is taken (1 = the default sample)
 
 VARIABLE row
 vars == <<row>>
@@ -77,10 +78,10 @@ Next ==
        /\ (row.sc = 3 => hk = 1 /\ withN)
        /\ \/ \E a1 \in 1..NActs : row' = Row(row.sc, row.v, hk, opt, withN, <<a1>>)
           \/ \E a1 \in 1..NActs, a2 \in 1..NActs :
-               /\ (Tier = "thorough" \/ (a1 + 3 * a2 + row.v + hk) % 11 = 0)
+               /\ (Tier = "thorough" \/ (a1 + 3 * a2 + row.v + hk + Seed - 1) % 11 = 0)
                /\ row' = Row(row.sc, row.v, hk, opt, withN, <<a1, a2>>)
           \/ \E a1 \in 1..NActs, a2 \in 1..NActs, a3 \in 1..NActs :
-               /\ (IF Tier = "thorough" THEN (a1 + 3 * a2 + 5 * a3 + row.v + hk) % 7 = 0 ELSE (a1 + 3 * a2 + 5 * a3 + row.v + hk) % 97 = 0)
+               /\ (IF Tier = "thorough" THEN (a1 + 3 * a2 + 5 * a3 + row.v + hk + Seed - 1) % 7 = 0 ELSE (a1 + 3 * a2 + 5 * a3 + row.v + hk + Seed - 1) % 97 = 0)
                /\ row' = Row(row.sc, row.v, hk, opt, withN, <<a1, a2, a3>>)
 
 Spec == Init /\ [][Next]_vars
